@@ -206,15 +206,24 @@ def e2_task(t):
                 ok = got == want
             R.oblig("%s %s %s(%r)" % (be, q, label, s_), ok, False)
             if not ok:
-                R.inconclusive.append("%s %s %s(%r): expected %s, the lookup code yields %s" % (be, q, label, s_, want, got))
+                R.candidates.append(E.cand("C09", "lookup", be, w, "lookup_" + label, [q], [], [], "%s %s %s(%r)" % (be, q, label, s_),
+                                           symbol=s_, expected=want, note="the lookup code yields %s" % got))
     R.absorb_exec(run0.ex)
     R.absorb_solver(sv)
     return R
 
 
+def lookup_oracle(c, out, scales):
+    got = out[2:].strip() if out.startswith("L ") else out
+    want = "None" if c["expected"] is None else "Some(%s)" % c["expected"]
+    return (got != want), "%s(%r) = %s, expected %s" % (c["op"], c["symbol"], got, want)
+
+
 def e2_part(report, tier):
     from engine.mirsmt import pool as mpool
+    from engine.replay import gen as rgen
     from props import e2common as E
+    rgen.EXTRA_SRC = synthdefs.SYNTH_RS
     keys = E.dump_worlds(["f64", "dec"], astro=True, fixture=True)
     pool = mpool.Pool(jobs=4)
     try:
@@ -222,7 +231,8 @@ def e2_part(report, tier):
         tasks = [(keys[label], q) for label in keys for q in desc[label]["qty"] if q not in ("f64", "Decimal")
                  and not (label.startswith("fix") and q not in desc[label].get("own", []))]
         tasks = sorted(set(tasks), key=str)
-        pool.run(report, e2_task, tasks)
+        cands = pool.run(report, e2_task, tasks)
+        E.native_confirm(report, "C09", cands, desc, lookup_oracle, probes=None)
         report.bounds["e2_scale_lookup"] = "from_scale / unit_from_scale for a symbolic amount (any real, comparisons exact) and for every declared scale: all catalogue types in f64 and decimal, astronomical types, synthetic types"
     finally:
         pool.close()
